@@ -82,6 +82,34 @@ def _empty(v):
     return isinstance(v, ast.Dict) and not v.keys
 
 
+def loop_built_dict(ff, dval):
+    """A dict that starts empty and is filled entry by entry inside one loop (`d = {}; for k, v in ..: [if ..: continue]
+    d[k] = v`): returns (loop node, [(stmt, key, value, guard facts)]) or None.  Guards are the branch facts that hold at
+    the store and did not hold at the loop entry."""
+    if not (isinstance(dval, Ref) and _empty(dval.value)):
+        return None
+    elems = []
+    for stmt, target, key, value, before, rt in ff.stores:
+        if isinstance(rt, ast.Subscript) and same_object(rt.value, dval):
+            if not before.loops:
+                return None
+            loopnode, entry_env, entry_facts = before.loops[-1]
+            guards = [f for k, f in before.facts.items() if k not in entry_facts]
+            elems.append((stmt, rt.slice, value, guards, loopnode))
+    # (the loop body is walked twice: keep one record per statement, the last one)
+    last = {}
+    for e in elems:
+        last[id(e[0])] = e
+    elems = list(last.values())
+    if not elems or len({id(e[4]) for e in elems}) != 1:
+        return None
+    return elems[0][4], [(e[0], e[1], e[2], e[3]) for e in elems]
+
+
+def guard_key(facts):
+    return frozenset((id(f.node), f.truth) for f in facts)
+
+
 def classify_volume(final, obj, okey, cver, writes, ff):
     """Is the final definition of X.volume a recompute over the final X.contents (or the incremental pair form)?"""
     v, rounded = unround(final)
@@ -99,6 +127,9 @@ def classify_volume(final, obj, okey, cver, writes, ff):
             if op != '+':
                 return False, 'a term is subtracted in the volume recompute'
             if guards:
+                fused = _fused_with_filter(node, writes, ff)
+                if fused:
+                    return True, fused
                 return False, 'a term of the recompute is conditional (some substances are skipped)'
             for x in deep_walk(term):
                 if isinstance(x, LoopVar) and x.loop is node.loop:
@@ -141,6 +172,36 @@ def classify_volume(final, obj, okey, cver, writes, ff):
                         return False, 'the contents entry written is not the substance whose volume is added'
                 return True, f"incremental: old volume + convert({show(pair[0], 20)}, {show(pair[1], 20)}, ..) matching the contents increment"
     return False, f"volume = {show(final, 80)}: not a recompute over the contents"
+
+
+def _fused_with_filter(acc, writes, ff):
+    """One pass builds the new contents and sums their volume: `for s, v in ..items(): if <skip>: continue;
+    kept[s] = v; volume += convert(s, v ..)` with `X.contents = kept` - every volume term is guarded exactly like the
+    entry store and converts that same entry, so the sum ranges over exactly the final contents."""
+    whole = [w for w in writes if w[3]]
+    if len(whole) != 1 or len(writes) != 1:
+        return None
+    built = loop_built_dict(ff, whole[0][2])
+    if built is None or built[0] is not acc.loop or const_value(acc.init) != 0:
+        return None
+    loop, elems = built
+    gk = {guard_key(e[3]) for e in elems}
+    if len(gk) != 1:
+        return None
+    for stmt, key, value, guards in elems:
+        k, v = strip_refs(key), strip_refs(value)
+        if not (isinstance(k, LoopVar) and k.loop is loop and k.path == (0,) and isinstance(v, LoopVar) and v.loop is loop
+                and v.path == (1,)):
+            return None
+    for op, term, guards, stmt in acc.terms:
+        if op != '+' or guard_key(guards) not in gk:
+            return None
+        conv = [x for x in deep_walk(term) if isinstance(x, ast.Call) and isinstance(x.func, ast.Attribute) and
+                x.func.attr in ('convert', 'convert_from')]
+        lvs = {x.path for x in deep_walk(term) if isinstance(x, LoopVar) and x.loop is loop}
+        if not conv or not {(0,), (1,)} <= lvs:
+            return None
+    return 'full recompute fused with the filter: every kept entry is stored and its volume added under the same guard'
 
 
 def _iter_ok(it, obj, okey, cver, form):
@@ -217,6 +278,9 @@ def observers(ctx):
                     is_attr(n.func.value, 'contents') and n.args and isinstance(strip_refs(n.args[0]), Param) and \
                     strip_refs(n.args[0]).name == solute:
                 num_ok = True
+            if isinstance(n, ast.Subscript) and is_attr(n.value, 'contents') and isinstance(strip_refs(n.slice), Param) and \
+                    strip_refs(n.slice).name == solute:
+                num_ok = True       # `contents[solute] if solute in contents else 0`
             if isinstance(n, Acc):
                 td = total_descriptor(n)
                 if td is not None:
